@@ -127,10 +127,12 @@ class CWMH(ProposalBasedSampler):
     def step(self):
         # Initialize x_t which is used to store the current CWMH sample
         x_t = self.current_point.copy()
+        if np.issubdtype(x_t.dtype, np.integer): # an integer-typed point would truncate the proposed components
+            x_t = x_t.astype(float)
 
         # Initialize x_star which is used to store the proposed sample by
         # updating the current sample component-by-component
-        x_star = self.current_point.copy()
+        x_star = x_t.copy()
 
         # Propose a sample x_all_components from the proposal distribution
         # for all the components
